@@ -10,7 +10,10 @@ holding NaN / inf or aliasing an input, flag combinations, identity / tovoigt
 variants), ``shapes`` (no / three batch axes, float32 / integer operands, mixed
 tensor dimensions, batches longer than the thread pool, solve_nd / linsteps /
 strain inputs the plain passes leave out), ``fields`` (the field-level functions
-on two-field containers, judged here against explicit loops).
+on two-field containers, judged here against explicit loops).  Every routine
+with optional flags is also called with all of them left out and with the flags
+by position: the monitor takes a flag from the call or from its own table of
+documented defaults (fourth audit), and "field n" is entry n of the check's list.
 """
 import sys
 
@@ -66,6 +69,17 @@ def drive_unary(run, rng, tier):
                 fm.transpose(A)
                 fm.tovoigt(S)
                 fm.tovoigt(S, strain=True)
+                # (fourth audit: the monitor takes a flag from the call, else from the documented default - so the flag is
+                # also named explicitly with its default value and passed by position)
+                fm.tovoigt(A, strain=False)
+                fm.tovoigt(A, True)
+                fm.inv(A, fm.det(A))
+                fm.inv(A, None, True)
+                fm.inv(S, None, False, True)
+                fm.inv(A, determinant=None, full_output=False, sym=False)
+                fm.cof(S, True)
+                fm.cof(A, sym=False)
+                fm.transpose(A, 1)
                 fm.equivalent_von_mises(S)
                 fm.identity(A)
                 if dtype is np.float64:
@@ -84,8 +98,12 @@ def drive_unary(run, rng, tier):
                     if d > 1 and len(batch) >= 1:
                         fm.eigvals(A, shear=True)
                     fm.eigvalsh(S)
+                    fm.eigvalsh(S, False)
+                    fm.eigvals(A, False)
+                    fm.eigh(S, "U")
                     if d > 1:
                         fm.eigvalsh(S, shear=True)
+                        fm.eigvalsh(S, True)
                     C = fm.dot(fm.transpose(A), A)
                     if d > 1:
                         for k in (0, 2, -1, 0.5, 1, -2, -0.5, 3, float(np.round(rng.uniform(-3, 3), 2))):
@@ -95,6 +113,13 @@ def drive_unary(run, rng, tier):
                                 fm.strain(None, C=C, k=k, asvoigt=True)
                         fm.strain(None, C=C, tensor=False)
                         fm.strain(None, C=C, asvoigt=True)
+                        # nothing but C: the documented defaults (logarithmic strain tensor in full storage); flags by position
+                        fm.strain(None, C=C)
+                        fm.strain(None, C)
+                        fm.strain(None, C, fm.strain_stretch_1d, False)
+                        fm.strain(None, C, fm.strain_stretch_1d, True, d == 3, k=2)
+                    fm.strain_stretch_1d(np.sqrt(np.abs(A[0, 0]) + 0.5))  # documented default: the logarithmic strain
+                    fm.strain_stretch_1d(np.sqrt(np.abs(A[0, 0]) + 0.5), 2)
                     fm.strain_stretch_1d(np.sqrt(np.abs(A[0, 0]) + 0.5), k=0)
                     fm.strain_stretch_1d(np.sqrt(np.abs(A[0, 0]) + 0.5), k=2)
                     for k in (1, -2, -0.5, 3, float(np.round(rng.uniform(-3, 3), 2))):
@@ -156,6 +181,23 @@ def drive_binary(run, rng, tier):
                 fm.dya(mk(1, ba), mk(1, bb), mode=1)
                 fm.majortranspose(mk(4, ba))
                 fm.transpose(mk(4, ba), mode=2)
+                # every optional argument left out (fourth audit: the documented defaults are the monitor's, not the
+                # signature's) and the same flags by position
+                fm.dot(A, B)
+                fm.ddot(A, B)
+                fm.dddot(mk(3, ba), mk(3, bb))
+                fm.cdya_ik(A, B)
+                fm.cdya_il(A, B)
+                fm.cdya(A, B)
+                fm.dot(A, mk(4, bb), (2, 4))
+                fm.dot(mk(4, ba), B, (4, 2), True)
+                fm.ddot(A, mk(4, bb), (2, 4), True)
+                fm.dddot(mk(3, ba), mk(3, bb), (3, 3), True)
+                fm.cdya_ik(A, B, True)
+                fm.cdya(A, B, True, np.full((d,) * 4 + bs, 3.0))
+                fm.dya(mk(1, ba), mk(1, bb), 1)
+                fm.dya(A, B, 2, True)
+                fm.transpose(mk(4, ba), 2)
                 if len(ba) == 2:
                     # trailing_axes other than the default 2 raise for d > 1 on the pinned tree (ravel does not
                     # forward the argument): loud, and reshape/ravel are helpers outside the property's list
@@ -172,6 +214,8 @@ def drive_binary(run, rng, tier):
                     fm.solve_2d(A4, mk(2, bb))
                     A2 = np.eye(d).reshape(d, d, 1, 1) + 0.1 * mk(2, ba)
                     fm.solve_nd(A2, mk(1, bb), n=1)
+                    fm.solve_nd(A2, mk(1, bb))  # documented default: vector-valued unknowns
+                    fm.solve_nd(A4, mk(2, bb), np.linalg.solve, 2)
                     # broadcast (size-one) batch axes on either side, as a local Newton uses them
                     fm.solve_nd(A2[..., :1, :1], mk(1, bb), n=1)
                     fm.solve_nd(A2, mk(1, (1, 1)), n=1)
@@ -192,6 +236,12 @@ def drive_misc(run, rng, tier):
         fm.rotation_matrix(ang, dim=2)
         for ax in (0, 1, 2):
             fm.rotation_matrix(ang, dim=3, axis=ax)
+        # documented defaults: three dimensions, about the first axis (each one left out alone and together); by position
+        fm.rotation_matrix(ang)
+        fm.rotation_matrix(ang, axis=2)
+        fm.rotation_matrix(ang, dim=3)
+        fm.rotation_matrix(ang, 2)
+        fm.rotation_matrix(ang, 3, 1)
     fm.linsteps([0, 0.5, 1.5, 3.5], num=2)
     fm.linsteps([0, 1, 0], num=[2, 3])
     fm.linsteps([0, 1, 0, 2], num=[2, 3])  # padded num
@@ -200,17 +250,32 @@ def drive_misc(run, rng, tier):
     fm.linsteps([0, 1], num=3, axis=0)
     fm.linsteps([0, -1, 4], num=5, axis=2, axes=3, values=[1.0, 2.0, 3.0])
     fm.linsteps([2.0], num=4)
+    # documented defaults (ten samples per segment, the end point included, one-dimensional result, other columns zero), each
+    # one left out alone and all together; flags by position
+    fm.linsteps([0, 1])
+    fm.linsteps([0, 0.5, 1.5, 3.5])
+    fm.linsteps([0, 1], endpoint=False)
+    fm.linsteps([0, 1], endpoint=True)
+    fm.linsteps([0, 2], axis=1)
+    fm.linsteps([0, 2], axis=0, axes=2)
+    fm.linsteps([0, 2], num=3, axis=1, values=0.0)
+    fm.linsteps([0, 0.5, 1.5, 3.5], num=2, axis=1, values=[-1, 0])  # the docstring's example
+    fm.linsteps([0, 1], 3, False)
+    fm.linsteps([0, 1, 3], [2, 3], True, 1, 3, [1.0, 2.0, 3.0])
     # strain measures taken from the n-th field of a container (documented index argument)
     import felupe as fem
     from ..util import maxabs
     mesh = fem.Cube(n=3)
     reg = fem.RegionHexahedron(mesh)
-    cont = fem.FieldContainer([fem.Field(reg, dim=3), fem.Field(reg, dim=3)])
-    for f in cont.fields:
+    # (fourth audit: "the n-th field" is the n-th entry of the list the container was built from - the check keeps that
+    # list and does not ask the container's own accessor, which is what the routines under test use)
+    fields = [fem.Field(reg, dim=3), fem.Field(reg, dim=3)]
+    cont = fem.FieldContainer(fields)
+    for f in fields:
         f.values[:] = 0.1 * rng.standard_normal(f.values.shape)
     for n_ in (0, 1):
         # (deformation gradient from explicit loops over cells and quadrature points, not from the field's own extract)
-        Fq = _quad_F(cont[n_], reg, mesh) + np.eye(3).reshape(3, 3, 1, 1)
+        Fq = _quad_F(fields[n_], reg, mesh) + np.eye(3).reshape(3, 3, 1, 1)
         Cq = np.einsum("ki...,kj...->ij...", Fq, Fq)
         w, N = np.linalg.eigh(np.moveaxis(Cq, (0, 1), (-2, -1)))
         for k_, f_ in ((0, lambda lam2: np.log(lam2) / 2), (2, lambda lam2: (lam2 - 1) / 2)):
@@ -222,6 +287,17 @@ def drive_misc(run, rng, tier):
                 run.compare("math.strain-of-field", "routine=%s[n=%d] clause=value" % (what, n_), maxabs(np.asarray(got) - ref), 1e-12,
                             "%s(n=%d) is not the Seth-Hill strain of field %d of the container" % (what, n_, n_), unit="math:strain-of-field[n=%d]" % n_,
                             config=("strain-of-field", what, n_, k_))
+            if n_ == 0:
+                # the index left out: documented default, the first field (and k = 0 for strain without k)
+                plain = [("math.strain[k=%d]" % k_, fm.strain(cont, k=k_)), ("field.evaluate.strain[k=%d]" % k_, cont.evaluate.strain(k=k_)),
+                         ("field.evaluate.%s" % ("log_strain" if k_ == 0 else "green_lagrange_strain"),
+                          (cont.evaluate.log_strain if k_ == 0 else cont.evaluate.green_lagrange_strain)())]
+                if k_ == 0:
+                    plain += [("math.strain", fm.strain(cont)), ("field.evaluate.strain", cont.evaluate.strain())]
+                for what, got in plain:
+                    run.compare("math.strain-of-field", "routine=%s[n left out] clause=value" % what, maxabs(np.asarray(got) - ref), 1e-12,
+                                "%s() without n (and k) is not the documented default: the %s strain of the first field" % (what, "logarithmic" if k_ == 0 else "Green-Lagrange"),
+                                unit="math:strain-of-field[defaults]", config=("strain-of-field", what, "defaults", k_))
     for _ in range(4 if tier == "quick" else 40):
         n = int(rng.integers(2, 6))
         pts = rng.uniform(-2, 2, n)
@@ -509,12 +585,12 @@ def drive_fields(run, rng, tier):
     voigt = {2: [(0, 0), (1, 1), (0, 1)], 3: [(0, 0), (1, 1), (2, 2), (0, 1), (1, 2), (0, 2)]}
     for kind, mesh, reg, fields in bodies():
         cont = fem.FieldContainer(fields)
-        for f in cont.fields:
+        for f in fields:
             f.values[:] = 0.1 * rng.standard_normal(f.values.shape)
         for n_ in (0, 1):
             mon, unit = "math.field-functions", "math:field-functions[%s,n=%d]" % (kind, n_)
 
-            def judge(what, got, ref, tol=1e-12):
+            def judge(what, got, ref, tol=1e-12, unit=unit):
                 got = np.asarray(got)
                 if got.shape != ref.shape:
                     run.fail(mon, "routine=%s[%s] clause=shape" % (what, kind), "%s(n=%d) on a %s container: shape %s, expected %s"
@@ -523,7 +599,8 @@ def drive_fields(run, rng, tier):
                 run.compare(mon, "routine=%s[%s] clause=value" % (what, kind), maxabs(got - ref), tol,
                             "%s(n=%d) is not that quantity of field %d of the %s container" % (what, n_, n_, kind), unit=unit,
                             config=("field-functions", what, kind, n_))
-            vals = cont[n_].values.copy()
+            # (fourth audit: field n is entry n of the caller's own list, not what the container's accessor returns)
+            vals = np.array(fields[n_].values, dtype=float)
             # displacement: the point values of field n, padded with zeros to dim columns
             for dim in (3,) if vals.shape[1] == 3 else (2, 3):
                 ref = np.zeros((vals.shape[0], dim))
@@ -531,15 +608,30 @@ def drive_fields(run, rng, tier):
                 judge("displacement(dim=%d)" % dim, fm.displacement(cont, dim=dim, n=n_), ref, tol=0.0)
             judge("displacement()", fm.displacement(cont, n=n_), np.pad(vals, ((0, 0), (0, 3 - vals.shape[1]))), tol=0.0)
             # deformation gradient F = 1 + du/dX; plane strain: padded to 3x3 with F33 = 1; axisymmetric: F33 = 1 + u_r / R
-            H = _quad_F(cont[n_], reg, mesh)
+            H = _quad_F(fields[n_], reg, mesh)
             if kind in ("planestrain", "axisymmetric"):
                 H = np.pad(H, ((0, 1), (0, 1), (0, 0), (0, 0)))
             if kind == "axisymmetric":
-                h = np.asarray(reg.h)
+                # radius and radial displacement at the quadrature points: interpolated with the bilinear shape functions in closed
+                # form, h_a = (1 + xi xi_a) (1 + eta eta_a) / 4, at the 2 x 2 Gauss points (+-1/sqrt(3), counter-clockwise like the
+                # corners) - not with the region's own ``h``, which is what FieldAxisymmetric computes its radius with (fourth audit)
+                corners = np.array([[-1.0, -1.0], [1.0, -1.0], [1.0, 1.0], [-1.0, 1.0]])
+                h = np.array([[(1 + g[0] * ca[0]) * (1 + g[1] * ca[1]) / 4 for g in corners / np.sqrt(3)] for ca in corners])  # (a, q)
+                # (the order of the quadrature points is a convention of the scheme: the same closed form must reproduce the
+                # gradients taken as given (C06); otherwise the points are numbered differently and F33 cannot be placed)
+                dh = np.array([[[ca[0] * (1 + g[1] * ca[1]) / 4, ca[1] * (1 + g[0] * ca[0]) / 4] for g in corners / np.sqrt(3)] for ca in corners])  # (a, q, J)
+                own = np.zeros((4, 2, 4, mesh.ncells))
+                for c in range(mesh.ncells):
+                    Xc = np.asarray(mesh.points)[mesh.cells[c]]
+                    for q in range(4):
+                        own[:, :, q, c] = dh[:, q, :] @ np.linalg.inv(Xc.T @ dh[:, q, :])
+                if own.shape != np.shape(reg.dhdX) or maxabs(own - np.asarray(reg.dhdX)) > 1e-10 * maxabs(own):
+                    run.skip(mon, "axisymmetric: quadrature points of the region are not the 2 x 2 Gauss points in corner order")
+                    continue
                 for c in range(H.shape[-1]):
                     for q in range(H.shape[-2]):
-                        R = sum(mesh.points[mesh.cells[c, a], 1] * h[a, q, c if h.shape[-1] > 1 else 0] for a in range(h.shape[0]))
-                        ur = sum(vals[mesh.cells[c, a], 1] * h[a, q, c if h.shape[-1] > 1 else 0] for a in range(h.shape[0]))
+                        R = sum(mesh.points[mesh.cells[c, a], 1] * h[a, q] for a in range(4))
+                        ur = sum(vals[mesh.cells[c, a], 1] * h[a, q] for a in range(4))
                         H[2, 2, q, c] = ur / R
             dF = H.shape[0]
             F = H + np.eye(dF).reshape(dF, dF, 1, 1)
@@ -554,6 +646,22 @@ def drive_fields(run, rng, tier):
                 Ev = np.array([E[i, j] * (1.0 if i == j else 2.0) for i, j in voigt[dF]])
                 judge("strain(k=%d,asvoigt=True)" % k_, fm.strain(cont, k=k_, n=n_, asvoigt=True), Ev)
             judge("evaluate.log_strain(tensor=False)", cont.evaluate.log_strain(n=n_, tensor=False), np.moveaxis(np.log(w) / 2, -1, 0))
+            # the same arguments by position (dim, n resp. n)
+            judge("displacement(cont, 3, n)", fm.displacement(cont, 3, n_), np.pad(vals, ((0, 0), (0, 3 - vals.shape[1]))), tol=0.0)
+            judge("deformation_gradient(cont, n)", fm.deformation_gradient(cont, n_), F)
+            judge("right_cauchy_green_deformation(cont, n)", fm.right_cauchy_green_deformation(cont, n_), C)
+            if n_ == 0:
+                # every optional argument left out: the documented defaults are three columns, the first field, the logarithmic
+                # strain tensor in full storage (both fields hold different values)
+                udef = "math:field-functions[%s,defaults]" % kind
+                judge("displacement(cont)", fm.displacement(cont), np.pad(vals, ((0, 0), (0, 3 - vals.shape[1]))), tol=0.0, unit=udef)
+                judge("deformation_gradient(cont)", fm.deformation_gradient(cont), F, unit=udef)
+                judge("right_cauchy_green_deformation(cont)", fm.right_cauchy_green_deformation(cont), C, unit=udef)
+                Elog = np.moveaxis(np.einsum("...a,...ia,...ja->...ij", np.log(w) / 2, N, N), (-2, -1), (0, 1))
+                judge("strain(cont)", fm.strain(cont), Elog, unit=udef)
+                judge("evaluate.strain()", cont.evaluate.strain(), Elog, unit=udef)
+                judge("evaluate.log_strain()", cont.evaluate.log_strain(), Elog, unit=udef)
+                judge("evaluate.green_lagrange_strain()", cont.evaluate.green_lagrange_strain(), (C - np.eye(dF).reshape(dF, dF, 1, 1)) / 2, unit=udef)
 
 
 def make_case(name, drive):
@@ -618,6 +726,12 @@ def _required():
     req += ["math:%s[parallel=True,chunks>1]" % r for r in ("dot", "ddot", "dddot", "cdya", "cdya_ik", "cdya_il")]
     for kind in ("3d", "2d", "planestrain", "axisymmetric"):
         req += ["math:field-functions[%s,n=%d]" % (kind, n) for n in (0, 1)]
+    # fourth audit: calls that leave every optional argument out, judged with the documented defaults (the monitor's own table)
+    req += ["math:%s[defaults]" % r for r in ("inv", "cof", "transpose", "dya", "cdya", "cdya_ik", "cdya_il", "dot", "ddot", "dddot",
+                                              "eig", "eigh", "eigvals", "eigvalsh", "tovoigt", "reshape", "ravel", "solve_nd",
+                                              "rotation_matrix", "linsteps", "strain_stretch_1d")]
+    req += ["math:strain[C,defaults]", "math:linsteps[endpoint=default]", "math:linsteps[values=default]", "math:strain-of-field[defaults]"]
+    req += ["math:field-functions[%s,defaults]" % kind for kind in ("3d", "2d", "planestrain", "axisymmetric")]
     return req
 
 
@@ -630,9 +744,14 @@ SPEC = {
              "further cases: buffers holding NaN/inf or aliasing an input, no / three batch axes, float32 / integer operands and "
              "mixed tensor dimensions for the binary routines, batches longer than the einsumt pool (recorded as einsumt_workers; "
              "with a single worker the parallel=True units are not reached), special spectra and own strain-stretch relations for "
-             "strain, field-level functions on 3D / 2D / plane-strain / axisymmetric two-field containers"),
+             "strain, field-level functions on 3D / 2D / plane-strain / axisymmetric two-field containers; every routine with "
+             "optional flags is also called with all of them left out and with the flags passed by position: the reference takes a "
+             "flag from the call, else from the documented default (table DOC of the monitor), never from the signature under test; "
+             "the n-th field of a container is entry n of the list the check built the container from"),
     "assumptions": ["numpy.linalg and explicit numpy.einsum per batch item are the reference",
                     "tolerance 1e3*eps(dtype)*scale (times cond for inverses)",
-                    "field-level functions: the region's shape-function gradients (judged by C06) are taken as given"],
+                    "field-level functions: the region's shape-function gradients (judged by C06) are taken as given; the "
+                    "axisymmetric radius is interpolated with the bilinear shape functions in closed form at own Gauss points",
+                    "documented defaults as stated in the docstrings of the pinned tree"],
     "jobs": {"quick": 4, "thorough": 5},
 }
